@@ -49,10 +49,11 @@ const (
 	pPastEOF
 	pCloseAfterEOF
 	pCloseHalf
+	pPastEOFLater
 	pCount
 )
 
-var c20PatName = []string{"ReadAll", "byte-at-a-time", "7-byte chunks", "4 KiB chunks", "three reads past EOF", "Close after EOF", "Close half-way"}
+var c20PatName = []string{"ReadAll", "byte-at-a-time", "7-byte chunks", "4 KiB chunks", "three reads past EOF", "Close after EOF", "Close half-way", "reads past EOF after a pause"}
 
 type Digest struct {
 	Sum     string
@@ -74,7 +75,7 @@ func (ReaderSvc) Consume(ctx context.Context, r io.Reader, pattern int, tag stri
 	}
 	var err error
 	switch pattern {
-	case pReadAll, pPastEOF, pCloseAfterEOF:
+	case pReadAll, pPastEOF, pCloseAfterEOF, pPastEOFLater:
 		var b []byte
 		b, err = io.ReadAll(r)
 		h.Write(b)
@@ -119,7 +120,10 @@ func (ReaderSvc) Consume(ctx context.Context, r io.Reader, pattern int, tag stri
 		d.Err = fmt.Sprint(err)
 	}
 	switch pattern {
-	case pPastEOF:
+	case pPastEOF, pPastEOFLater:
+		if pattern == pPastEOFLater {
+			time.Sleep(30 * time.Millisecond) // the upload request has long completed by now
+		}
 		for i := 0; i < 3; i++ {
 			n, e := r.Read(make([]byte, 16))
 			d.PostEOF = append(d.PostEOF, fmt.Sprintf("%d,%v", n, e))
